@@ -435,6 +435,32 @@ ENDINGS = ["sink", "drop", "kill", "wrongpos", "unrel_field", "unrel_obj", "unre
 NEGATIVE_ENDINGS = [e for e in ENDINGS if e not in ("sink",)]
 
 
+# Root-cause families of missed flows, written from the triage of the pairwise link sweep on the unchanged tree
+# (see props/c10.py).  A family matches a label sequence if a label of `first` is followed, anywhere later, by a
+# label of `then` ("*" = any value-carrying link).
+FAMILIES = [
+    ("loop-body-def", [{"first": {"for_body", "while_body"}, "then": "*"},
+                       {"first": {"in_for", "in_while", "for_iter"},
+                        "then": {"global_write", "out_field", "nonlocal", "return", "global_import"}}]),
+    ("free-variable-copy", [{"first": {"global_read", "closure"}, "then": "*"}]),
+    ("try-body-def>loop", [{"first": {"try_body"}, "then": {"for_body", "while_body", "in_for", "in_while"}}]),
+]
+
+
+def _strip_label(label):
+    return label.split("@", 1)[0]
+
+
+def family_of(seq):
+    seq = [_strip_label(x) for x in seq]
+    for name, rules in FAMILIES:
+        for r in rules:
+            for i, a in enumerate(seq):
+                if a in r["first"] and any(r["then"] == "*" or b in r["then"] for b in seq[i + 1:]):
+                    return name
+    return None
+
+
 class Line(object):
     __slots__ = ("text", "tag", "ind")
 
@@ -1013,12 +1039,37 @@ class Builder(object):
         idx = next(i for i, it in enumerate(parent.body) if it is rec)
         parent.body.insert(idx, Line("%s = %s()" % (b, cls.name), rec.ind))
         cur.params.append(o)
-        rec.args.append(b)
+        rec.args.append(("%s=%s" % (o, b)) if any("=" in a for a in rec.args) else b)
         cur.emit("%s.f = %s" % (o, v))
         parent.emit("%s = %s.f" % (w, b))
         return parent, w, "out_field"
 
     # -- chains -------------------------------------------------------------------------------
+    def plan_links(self, links):
+        """Step over the avoided root-cause families: the construct that would complete one is replaced by an
+        assignment (kind level: closure stands for closure / global_read)."""
+        links = [dict(l) for l in links]
+        val = [i for i, l in enumerate(links) if l["k"] != "tee"]
+        for name, rules in FAMILIES:
+            if name not in self.avoid:
+                continue
+            for r in rules:
+                first = set(r["first"]) | ({"closure"} if "global_read" in r["first"] else set())
+                for pos, i in enumerate(val):
+                    if links[i]["k"] not in first:
+                        continue
+                    later = val[pos + 1:]
+                    if r["then"] == "*":
+                        if later:
+                            links[i] = {"k": "assign"}
+                            self.stepped.append(name)
+                    else:
+                        for j in later:
+                            if links[j]["k"] in r["then"]:
+                                links[j] = {"k": "assign"}
+                                self.stepped.append(name)
+        return links
+
     def emit_chain(self, c, chain):
         self.c = c
         self.nv = 0
@@ -1027,6 +1078,7 @@ class Builder(object):
         for fb in self.files:
             fb.module.exported = []
         src_kind = chain.get("src", "method")
+        src_label = None
         if self.avoid_has("src:" + src_kind):
             self.stepped.append("src:" + src_kind)
             src_kind = "method" if not self.avoid_has("src:method") else "param"
@@ -1040,8 +1092,12 @@ class Builder(object):
             cur.parent = B
             cur.seg_start = len(cur.body)
         touched.append(cur)
+        pre_labels = []
         for pre in chain.get("pre", []):
-            cur, _ = self.descend_plain(cur, pre, pre.get("kind", "func"))
+            pk = pre.get("kind", "func")
+            nxt, lab = self.descend_plain(cur, dict(pre, k="pre:" + pk), pk)
+            pre_labels.append("pre:%s%s" % ("func" if (pk == "nested" and nxt.kind != "nested") else pk, lab))
+            cur = nxt
             touched.append(cur)
         if src_kind in ("param", "decoy_param"):
             sid = self.new_source("param", 0)
@@ -1055,7 +1111,9 @@ class Builder(object):
             else:
                 self.add_src_rule("call", "source")
                 kidx = -1
-            fr, lab = self.descend_plain(cur, chain.get("pfile", {}), "func", args=["mkval(%d)" % kidx], params=[pname])
+            fr, lab = self.descend_plain(cur, dict(chain.get("pfile", {}), k="src:param"), "func",
+                                         args=["mkval(%d)" % kidx], params=[pname])
+            src_label = "src:param" + lab
             fr.header_tag = ("src", sid)
             cur = fr
             touched.append(cur)
@@ -1065,7 +1123,7 @@ class Builder(object):
             v = self.var("s")
             cur.emit("%s = %s" % (v, self.source_expr(src_kind, sid)), tag=("src", sid))
         at = 0
-        for link in chain.get("links", []):
+        for link in self.plan_links(chain.get("links", [])):
             cur, v, lab = self.apply_link(cur, v, link, at)
             if cur not in touched:
                 touched.append(cur)
@@ -1075,8 +1133,8 @@ class Builder(object):
         self.emit_ending(cur, v, chain, at)
         for fr in touched:
             fr.close_blocks()
-        self.chains_meta.append({"labels": labels, "src": src_kind, "end": chain.get("end", "sink"),
-                                 "pre": [p.get("kind", "func") for p in chain.get("pre", [])],
+        self.chains_meta.append({"labels": labels, "src": src_kind, "src_label": src_label or ("src:" + src_kind),
+                                 "end": chain.get("end", "sink"), "pre": pre_labels,
                                  "start_mod": bool(0 < sm < self.nfiles)})
 
     def emit_ending(self, cur, v, chain, at):
